@@ -380,6 +380,9 @@ func runC13(c *fw.Case) (o fw.Outcome) {
 		}
 	}
 	a.nas = rbytes(r, pick(r, 0, 1, 2, 127, 128, 255, 256, 2047, 5000, r.Intn(300)))
+	if len(a.nas) == 0 && r.Intn(2) == 0 {
+		a.nas = nil // a NAS-PDU of length 0 in its other Go spelling (the zero value of []byte)
+	}
 	a.ipv4 = pick(r, "0.0.0.0", "255.255.255.255", "10.0.0.1", "192.168.61.3", "127.0.0.1", net.IP(rbytes(r, 4)).String(), ipv4Class(r).String(), ipv4Class(r).String())
 	if r.Intn(6) == 0 { // the same IPv4 address in the IPv4-mapped notations net.ParseIP also reads as IPv4 (To4 != nil)
 		ip := net.ParseIP(a.ipv4).To4()
@@ -682,7 +685,9 @@ func c13Verify(sp bSpec, a *bArgs, pdu *ngapType.NGAPPDU) (msg, key string) {
 	}
 	if uses["nas"] {
 		ie, ok := ies[38]
-		if !ok || ie.val.IsNil() || !bytes.Equal(ie.val.Elem().Field(0).Bytes(), a.nas) {
+		if !ok && a.nas == nil && strings.Contains(sp.name, "ReleaseCommand") {
+			// the one builder whose NAS-PDU is OPTIONAL: a nil argument means "no NAS-PDU", by its own contract
+		} else if !ok || ie.val.IsNil() || !bytes.Equal(ie.val.Elem().Field(0).Bytes(), a.nas) {
 			return fmt.Sprintf("NAS-PDU in the encoding differs from the argument (%d octets given)", len(a.nas)), "wrong-nas-pdu"
 		}
 	}
